@@ -13,7 +13,8 @@ BuiltKind(k) == IF k = "config" THEN "inst" ELSE k
 
 RECURSIVE Res(_, _)
 Res(h, v) ==    \* the value an argument / item holds after building
-  IF IsRef(v) /\ h[-v].k = "tagged" THEN Res(h, h[-v].items[1].val) ELSE v
+  IF IsRef(v) /\ h[-v].k = "tagged" /\ h[-v].items # <<>> /\ h[-v].items[1].val # 0
+  THEN Res(h, h[-v].items[1].val) ELSE v
 
 Built(h) ==
   [i \in 1..Len(h) |->
@@ -23,7 +24,8 @@ Built(h) ==
          [j \in 1..Len(its) |-> ItemT(its[j].key, Res(h, its[j].val), 0)])]
 
 BuildFails(h, root) ==
-  \E o \in Reach(h, root) : h[o].k = "tagged" /\ h[o].items[1].val = 0
+  \* (a TaggedValue stripped of its tags has no items at all)
+  \E o \in Reach(h, root) : h[o].k = "tagged" /\ (h[o].items = <<>> \/ h[o].items[1].val = 0)
 
 BuiltRoot(h, root) == Res(h, -root)
 \* canonical built graph; <<>> when the result is a leaf
